@@ -122,7 +122,13 @@ fn grant_rights(p: &mut Pos, rng: &mut Rng) {
 /// Random valid position with roughly `men` men in total. En-passant state is produced only by
 /// letting the model play a double push.
 pub fn random_valid(rng: &mut Rng, men: usize, want_ep: bool, home_bias: bool) -> Pos {
+    let mut tries = 0;
+    let mut want_ep = want_ep;
     loop {
+        tries += 1;
+        if tries > 60 {
+            want_ep = false; // e.g. too few men for a pawn push: give up on en-passant state, never loop forever
+        }
         let mut p = Pos::empty();
         if home_bias && rng.chance(2, 3) {
             p.sq[4] = Some((Kind::K, Col::W));
